@@ -670,3 +670,102 @@ def _mk_cr12_lemmas(tls12, k):
 for _tls12 in (True, False):
     for _k in (0, 1, 2, 3):
         _mk_cr12_lemmas(_tls12, _k)
+
+
+# =======================================================================================================
+# TLSExtension: generic header  extension_type(2) length(2) extension_data  and the handler dispatch
+# =======================================================================================================
+def _tostr_model(ex, args, kwargs, st, fr, node):
+    from pyvc.executor import Outcome
+    from pyvc.values import VStr
+    return [Outcome('normal', st, VStr('<enum name>'))]
+
+
+REG.external['tlslite/constants.py:TLSEnum.toStr'] = _tostr_model
+REG.note('C08', 'trusted', 'TLSEnum.toStr (used only to format the DecodeError message in TLSExtension.parse) returns a string and '
+         'raises nothing')
+
+TE = T.obj(EXT.TLSExtension, extType=T.int(), _extData=T.bytes(), serverType=T.const(False), encExtType=T.const(False),
+           cert=T.const(False), hrr=T.const(False))
+
+
+def te_fits(ns):
+    return S.And(ns.f(ns.self, 'extType') >= 0, ns.f(ns.self, 'extType') < 65536, S.len_(ns.f(ns.self, '_extData')) < 65536)
+
+
+_variant(E + 'TLSExtension.write', name='TLSExtension.write[generic]', params={'self': TE}, result=T.bytes(),
+         ensures=lambda ns: (lambda t, d: S.And(
+             te_fits(ns), S.seq_eq(ns.result, S.cat(S.be(t, 2), S.be(S.len_(d), 2), d)), S.len_(ns.result) == 4 + S.len_(d),
+             only_modifies(ns)))(ns.f(ns.self, 'extType'), ns.f(ns.self, '_extData')),
+         raises={ValueError: ('iff', lambda ns: S.Not(te_fits(ns)))}, prop=PROP,
+         doc='extension_type(2) || uint16 len || extension_data; ValueError iff the type or the length does not fit 16 bits')
+
+UNIVERSAL_TYPES = sorted(EXT.TLSExtension._universalExtensions)
+
+
+def te_p(ns):
+    return ns.p
+
+
+def te_bad(ns):
+    b, i = ns.f(ns.p, 'bytes'), ns.f(ns.p, 'index')
+    rem = S.len_(b) - i
+    n = VInt(smt.s_val(smt.s_slice(b.t, (i + 2).t, (i + 4).t)))
+    return S.Or(rem < 4, S.And(rem >= 4, rem < 4 + n))
+
+
+_variant(E + 'TLSExtension.parse', name='TLSExtension.parse[unknown-type]', params={'self': TE, 'p': PARSER},
+         requires=lambda ns: (lambda b, i: S.And(
+             p_inv_of(ns, ns.p),
+             # the type on the wire has no registered handler (client-side context: universal table only)
+             S.implies(S.len_(b) - i >= 2,
+                       S.And(*[VInt(smt.s_val(smt.s_slice(b.t, i.t, (i + 2).t))) != t for t in UNIVERSAL_TYPES]))))(
+                           ns.f(ns.p, 'bytes'), ns.f(ns.p, 'index')),
+         result=T.opaque(), modifies=[('self', 'extType'), ('self', '_extData'), ('p', 'index')],
+         ensures=lambda ns: (lambda b, i: (lambda n: S.And(
+             ns.f(ns.self, 'extType') == VInt(smt.s_val(smt.s_slice(b.t, i.t, (i + 2).t))),
+             S.len_(ns.f(ns.self, '_extData')) == n,
+             S.forall(lambda k: at(ns.f(ns.self, '_extData'), k) == at(b, i + 4 + k), 0, n),
+             ns.f(ns.p, 'index') == i + 4 + n, p_inv_of(ns, ns.p),
+             only_modifies(ns, (ns.self, 'extType'), (ns.self, '_extData'), (ns.p, 'index'))))(
+                 VInt(smt.s_val(smt.s_slice(b.t, (i + 2).t, (i + 4).t)))))(ns.old.f(ns.p, 'bytes'), ns.old.f(ns.p, 'index')),
+         raises={DecodeError: ('iff', te_bad)},
+         exc_ensures=lambda ns: S.And(ns.f(ns.p, 'index') >= ns.old.f(ns.p, 'index'), p_inv_of(ns, ns.p)),
+         prop=PROP,
+         doc='an extension whose type has no handler is kept verbatim: type, and exactly the declared number of payload '
+             'bytes; consumes 4+len; DecodeError iff the header or the payload is truncated')
+
+
+def _mk_dispatch(cls, kind):
+    cn = cls.__name__
+
+    @scenario('ext-dispatch-%s' % cn, PROP,
+              doc='%s().create(v).write() parsed with the generic TLSExtension().parse (client-side context) is dispatched to '
+                  'the same handler class, gives an equal value and consumes exactly the extension (header type/length '
+                  'agree with the payload)' % cn)
+    def disp(api):
+        x, st = _new(api, cls, api.st)
+        g, st = _new(api, EXT.TLSExtension, st)
+        v = api.make('value', VALUE_T[kind], st)
+        st.heap[(x.oid, '_internal_value')] = v
+        for o in _normal(api, _method(api, x, 'write', [], st), 'write', allow=(ValueError,)):
+            wire = o.val
+            p, st2 = _parser_at(api, o.st, wire, 0)
+            for o2 in _normal(api, _method(api, g, 'parse', [p], st2), 'parse'):
+                r = o2.val
+                same_cls = isinstance(r, VObj) and r.cls is cls
+                api.oblige(o2.st, 'same-handler-class', same_cls)
+                if not same_cls:
+                    continue
+                ns = api.ns(o2.st)
+                got = ns.f(r, '_internal_value')
+                if isinstance(got, VNone):
+                    api.unreachable(o2.st, 'present-value-parsed-as-absent(None)')
+                    continue
+                api.oblige(o2.st, 'value-back', _same_value(kind, got, v))
+                api.oblige(o2.st, 'consumed-exactly', ns.f(p, 'index') == S.len_(wire))
+
+
+for _cls, _kind in SUBCLASSES:
+    if EXT.TLSExtension._universalExtensions.get(_cls().extType) is _cls:
+        _mk_dispatch(_cls, _kind)
